@@ -244,7 +244,12 @@ func runC12(c *Ctx) {
 				if form == 1 {
 					// needs bit 113: 2^113 .. Cmax
 					coef = new(big.Int).Lsh(ref.One, 113)
-					coef.Add(coef, r.BigBelow(new(big.Int).Sub(ref.CmaxP1, coef)))
+					if r.Chance(1, 3) {
+						// the lowest coefficients of the steering form: every stored coefficient bit above the low word is zero
+						coef.Add(coef, new(big.Int).SetUint64(r.U64()>>uint(r.Pick(0, 0, 32, 63, 64))))
+					} else {
+						coef.Add(coef, r.BigBelow(new(big.Int).Sub(ref.CmaxP1, coef)))
+					}
 				} else {
 					coef, _ = r.Coef()
 					if coef.BitLen() > 113 {
@@ -252,6 +257,17 @@ func runC12(c *Ctx) {
 					}
 				}
 				j.judgeUnmarshal(bytesFromBits(ref.Encode(r.Bool(), coef, be-ref.Bias)))
+			}
+			if be < 8 || be > 12279 || be%1024 == 0 {
+				// the extreme exponent fields with the lowest steering-form coefficients (2^113 + one word) and the
+				// highest small-form ones: exponent-field / coefficient-bit adjacency in both layouts
+				for k := 0; k < 6; k++ {
+					lowSteer := new(big.Int).Lsh(ref.One, 113)
+					lowSteer.Add(lowSteer, new(big.Int).SetUint64(r.U64()>>uint(r.Pick(0, 32, 63, 64))))
+					j.judgeUnmarshal(bytesFromBits(ref.Encode(k%2 == 0, lowSteer, be-ref.Bias)))
+					highSmall := new(big.Int).Sub(new(big.Int).Lsh(ref.One, 113), new(big.Int).SetUint64(1+r.U64()>>uint(r.Pick(0, 32, 63))))
+					j.judgeUnmarshal(bytesFromBits(ref.Encode(k%2 == 1, highSmall, be-ref.Bias)))
+				}
 			}
 		}
 		n := c.N(150000, 2000000)
